@@ -395,6 +395,31 @@ def d3(chk, prog):
         got = sorted(r[0] for r in out)
         tb.cell(got == want, dict(segment_end=ce, genes={nm: (gs, ge) for nm, gs, ge in two["chr1"]}, min_probes=mp, got=got, want=want))
     tb.done("breaks lists a gene that has too few bins on one side of the boundary, or misses one that has enough")
+    # do_breaks end to end on literal tables: chromosomes without any named gene (antitarget / unnamed bins only) that are split into several segments,
+    # before, between and after the chromosome whose gene is cut
+    fb = prog.fn("cnvlib.reports.do_breaks")
+    tbe = Table(chk, "breakpoint-predicate", "do_breaks on literal bins / segments: a gene cut on one chromosome, other chromosomes holding no named gene and split into two segments", fb.loc(), fb.qn)
+    for layout in (("chr1",), ("chr0", "chr1"), ("chr1", "chr2"), ("chr0", "chr1", "chr2")):
+        W.reset()
+        bins, segs = [], []
+        for c in layout:
+            names = ["G", "G", "G", "G"] if c == "chr1" else ["Antitarget", "-", ".", "Antitarget"]
+            for i, nm in enumerate(names):
+                bins.append(dict(chromosome=c, start=100 * i, end=100 * i + 50, gene=nm, log2=0))
+            segs.append(dict(chromosome=c, start=0, end=200, gene="-", log2=Fr(0), probes=2))
+            segs.append(dict(chromosome=c, start=200, end=350, gene="-", log2=Fr(1), probes=2))
+        g_bins = make_ga("CopyNumArray", bins, {"sample_id": "S"}, exact=True)
+        g_segs = make_ga("CopyNumArray", segs, {"sample_id": "S"}, exact=True)
+        model = Model()
+        model.ext["pd.DataFrame.from_records"] = lambda it, recs, columns=None, **k: ("RECORDS", list(recs), list(columns) if columns is not None else None)
+        it = Interp(prog, model)
+        out = tbe.guard(lambda: it.run(fb.qn, [g_bins, g_segs, 1]), f"chromosomes {layout}")
+        if out is None:
+            continue
+        recs = out[1] if isinstance(out, tuple) and out and out[0] == "RECORDS" else None
+        ok = recs is not None and len(recs) == 1 and recs[0][0] == "G" and recs[0][1] == "chr1" and same(recs[0][2], 200) and recs[0][4] == 2 and recs[0][5] == 2
+        tbe.cell(ok, dict(chromosomes=list(layout), got=repr(recs)[:200], want="one record: G on chr1 at 200, 2 bins on each side"))
+    tbe.done("breaks fails or reports the wrong genes when a chromosome without any named gene is split into several segments")
     # do_genemetrics: min_probes filter is >=
     fg = prog.fn("cnvlib.reports.do_genemetrics")
     cmps = [n for n in own_nodes(fg.node) if isinstance(n, ast.Compare) and "min_probes" in norm(n)]
